@@ -21,7 +21,7 @@ THEOREMS = ["Mesa.ASet." + t for t in (
     "C03_len_iter_contains_getitem_agree", "C03_no_duplicates_all_histories",
     "C03_inplace_equals_copy_and_copy_preserves", "C03_get_set_agg_map_list_semantics",
     "C03_set_algebra_members_and_order", "C03_comparisons_are_subset_order", "C03_inplace_operators_match_copying",
-    "C03_index_count_reversed_agree", "C03_operators_pop_clear_on_the_store",
+    "C03_index_count_reversed_agree", "C03_operators_pop_clear_on_the_store", "C03_dead_member_leaves_every_set",
     "C18_agents_remove_absent_reject_unchanged", "C18_agents_sort_missing_key_reject_unchanged",
     "C18_agents_groupby_missing_key_reject_unchanged", "C18_agents_pop_empty_reject_unchanged",
     "C18_agents_any_reject_unchanged")]
@@ -33,14 +33,15 @@ TRUSTED = [
     "filter / key / map callables are the harness's small total functions; arbitrary Python callables are not modelled",
     "the operators and methods AgentSet inherits (| & - ^ and in-place forms, comparisons, isdisjoint, pop, clear, index, count, reversed) are CPython's collections.abc mixins over AgentSet's own __contains__/__iter__/__len__/add/discard/__getitem__/_from_iterable; the model follows _collections_abc.py of Python 3.12; a non-iterable operand (TypeError) is answered by the driver, not the model",
 ]
-ASSUMPTIONS = ["all members are strongly referenced (weak-reference effects are C04's subject)",
+ASSUMPTIONS = ["members die only between operations (`kill`: removed from the model and dropped by the program); death in the middle of a call is C04's subject",
                "at_most is inf, a non-negative int, or a float in [0, 1]; IEEE ties of len*f just below an integer are excluded (DESIGN §2)"]
 RULE = ("random op sequences on 0-9 agents (one class or mixed subclasses, tie-heavy attribute values, optional attribute y) and on every "
         "set derived so far: AgentSet(...) incl. duplicates, select (predicates x agent_type x at_most in inf/int/fraction x inplace), "
         "sort (attribute / callable / missing key, asc/desc, inplace), shuffle (scripted), groupby (agentset/list), get (one/many, "
         "error/default/bogus), set, agg, map, [], slices, add, discard, remove, in, len, and (1 op in 5) the inherited mixin methods: "
         "| & - ^ with a set / the set itself / a list, tuple or generator with duplicates / a non-iterable, reflected forms, |= &= -= ^=, "
-        "<= < >= > == !=, isdisjoint, pop, clear, index with 0-2 bounds, count, reversed; non-trivial = a set of >= 3 members went through "
+        "<= < >= > == !=, isdisjoint, pop, clear, index with 0-2 bounds, count, reversed; now and then a member dies between two "
+        "operations (weak references: it leaves every set); non-trivial = a set of >= 3 members went through "
         ">= 3 set-returning operations")
 
 NAMES = ["x", "y", "z"]
@@ -122,6 +123,7 @@ class Impl:
         self.Model, self.CLS, self.AgentSet = classes()
         self.model = None
         self.agents, self.sets, self.trace = [], [], []
+        self.tys = []
 
     def need_model(self):
         if self.model is None:
@@ -146,14 +148,17 @@ class Impl:
         raise ValueError(tok)
 
     def snap(self):
+        """(member ids of every set, attributes of every agent, class of every agent); an agent that has died
+        (`kill`) keeps its slot: attributes None, class as it was"""
         return ([[a.id for a in s] for s in self.sets],
-                [tuple(getattr(a, n, None) for n in NAMES) for a in self.agents],
-                [self.CLS.index(type(a)) for a in self.agents])
+                [tuple(getattr(a, n, None) for n in NAMES) if a is not None else (None,) * len(NAMES) for a in self.agents],
+                list(self.tys))
 
     def dump(self):
         sets, attrs, _ = self.snap()
         ss = "|".join(f"S{k}=" + ",".join(map(str, s)) for k, s in enumerate(sets))
-        ags = " ".join(f"{i}:" + "/".join("None" if v is None else str(v) for v in t) for i, t in enumerate(attrs))
+        ags = " ".join(f"{i}:dead" if self.agents[i] is None else f"{i}:" + "/".join("None" if v is None else str(v) for v in t)
+                       for i, t in enumerate(attrs))
         return f"{ss} || {ags}"
 
     def ok(self, res):
@@ -211,9 +216,18 @@ class Impl:
             a = self.CLS[ty](self.need_model(), x, y)
             a.id = len(self.agents)
             self.agents.append(a)
+            self.tys.append(ty)
             return self.ok(f"id={a.id}")
+        if k == "kill":
+            i = int(w[1])
+            if i >= len(self.agents) or self.agents[i] is None:
+                return "bad-op"
+            # removed from its model, and the program drops the only reference it holds: the agent dies (refcounting)
+            self.agents[i].remove()
+            self.agents[i] = None
+            return self.ok("killed")
         if k == "mk":
-            if any(int(i) >= len(self.agents) for i in w[1:]):
+            if any(int(i) >= len(self.agents) or self.agents[int(i)] is None for i in w[1:]):
                 return "bad-op"  # only the shrinker produces dangling references; the driver says the same
             s = self.AgentSet([self.agents[int(i)] for i in w[1:]], random=self.need_model().random)
             self.sets.append(s)
@@ -221,7 +235,8 @@ class Impl:
             return self.ok(f"set={len(self.sets) - 1}")
         if k in ("setop", "isetop", "cmp"):
             return self._mixin_binary(w)
-        if int(w[1]) >= len(self.sets) or (k in ("add", "discard", "remove", "contains", "count", "index") and int(w[2]) >= len(self.agents)):
+        if int(w[1]) >= len(self.sets) or (k in ("add", "discard", "remove", "contains", "count", "index")
+                                           and (int(w[2]) >= len(self.agents) or self.agents[int(w[2])] is None)):
             return "bad-op"
         s = self.sets[int(w[1])]
         if k == "disjoint":
@@ -367,7 +382,7 @@ class Impl:
             o = self.sets[int(rest)]
             return ([a.id for a in o], o)
         ids = [int(i) for i in rest.split(",")] if rest != "-" else []
-        if any(i >= len(self.agents) for i in ids):
+        if any(i >= len(self.agents) or self.agents[i] is None for i in ids):
             return None
         objs = [self.agents[i] for i in ids]
         form = len(ids) % 3
@@ -485,33 +500,36 @@ def gen_atmost(R):
 MIXIN_P = 0.2
 
 
-def gen_other(R, s, nsets, n, p_self=0.15):
+def gen_other(R, s, nsets, living, p_self=0.15):
     k = R.random()
     if k < p_self:
         return f"s:{s}"  # the set itself (`a -= a` and `a ^= a` clear it)
-    if k < 0.6 or n == 0:
+    if k < 0.6 or not living:
         return f"s:{R.randrange(nsets)}"
     if k < 0.97:
-        return "l:" + (",".join(str(R.randrange(n)) for _ in range(R.randrange(0, 6))) or "-")  # duplicates welcome
+        return "l:" + (",".join(str(R.choice(living)) for _ in range(R.randrange(0, 6))) or "-")  # duplicates welcome
     return "x"
 
 
-def gen_mixin(R, s, nsets, n):
+def gen_mixin(R, s, nsets, living):
     """the methods inherited from collections.abc.Set / MutableSet / Sequence"""
     k = R.random()
-    an = R.randrange(n) if n else 0
+    n = len(living)
+    if not living:
+        return f"{R.choice(['pop', 'clear', 'reversed'])} {s}" if R.random() < 0.5 else f"cmp {R.choice(['le', 'eq', 'lt'])} {s} {R.randrange(nsets)}"
+    an = R.choice(living)
     if k < 0.34:
         op = R.choice(["or", "and", "sub", "xor", "and", "xor"])
-        o = gen_other(R, s, nsets, n)
+        o = gen_other(R, s, nsets, living)
         if o.startswith("l:") and R.random() < 0.2:
             op = "rsub"
         return f"setop {op} {s} {o}"
     if k < 0.56:
-        return f"isetop {R.choice(['or', 'and', 'sub', 'xor'])} {s} {gen_other(R, s, nsets, n, p_self=0.1)}"
+        return f"isetop {R.choice(['or', 'and', 'sub', 'xor'])} {s} {gen_other(R, s, nsets, living, p_self=0.1)}"
     if k < 0.72:
         return f"cmp {R.choice(['le', 'lt', 'ge', 'gt', 'eq', 'ne', 'eq', 'le'])} {s} {R.randrange(nsets)}"
     if k < 0.77:
-        return f"disjoint {s} {gen_other(R, s, nsets, n, p_self=0.05)}"
+        return f"disjoint {s} {gen_other(R, s, nsets, living, p_self=0.05)}"
     if k < 0.85:
         return f"pop {s}"
     if k < 0.88:
@@ -552,12 +570,18 @@ def gen_scenario(R, rejecting=False):
     if R.random() < 0.4:
         lines.append("mk " + " ".join(str(R.randrange(n)) for _ in range(R.randrange(0, 5)) if n))
         nsets += 1
+    living = list(range(n))
     for _ in range(R.randrange(5, 26)):
         s = R.randrange(nsets) if R.random() < 0.5 else nsets - 1 - R.randrange(min(nsets, 2))
         inpl = R.choice([0, 0, 1])
         inpl_sel = 1 if R.random() < 0.12 else 0  # in-place selections empty the sets quickly
         k = R.random()
-        an = R.randrange(n) if n else None
+        an = R.choice(living) if living else None
+        if living and R.random() < 0.04:
+            # a member dies between two operations: every set, original or derived, loses it
+            lines.append(f"kill {an}")
+            living.remove(an)
+            continue
         if rejecting and R.random() < 0.35:
             # calls that raise: the following ops see whether anything was damaged
             opts = ["sort {s} attr:2 desc {i}", "sort {s} attr:1 asc {i}", "get {s} one:2 error", "get {s} one:0 bogus",
@@ -571,7 +595,7 @@ def gen_scenario(R, rejecting=False):
             lines.append(R.choice(opts).format(s=s, i=inpl, a=an))
             continue
         if R.random() < MIXIN_P:
-            lines.append(gen_mixin(R, s, nsets, n))
+            lines.append(gen_mixin(R, s, nsets, living))
             if lines[-1].startswith("setop"):
                 nsets += 1
             continue
@@ -619,7 +643,7 @@ def fix_set_indices(lines):
     try:
         for l in lines[1:]:
             w = l.split()
-            if w[0] not in ("rng", "agent", "mk"):
+            if w[0] not in ("rng", "agent", "mk", "kill"):
                 ns = len(impl.sets)
                 if ns == 0:
                     continue
@@ -691,11 +715,26 @@ LEGITIMATE_ERRORS = {("sort", "Attr"), ("group", "Attr"), ("get", "Attr"), ("get
 
 
 def oracle(sc, obs):
+    try:
+        return _oracle(sc, obs)
+    except Exception as e:  # noqa: BLE001 - e.g. a result naming an agent that no longer exists
+        return [f"unjudgeable: the observations cannot be read as list / ordered-set results at all ({type(e).__name__}: {e})"]
+
+
+def _oracle(sc, obs):
     bad = []
+    dead = set()
     for ev in sc.meta.get("trace") or []:
         w = ev["line"].split()
         k = w[0]
         (sets0, attrs0, tys), (sets1, attrs1, _), out = ev["pre"], ev["post"], ev["out"]
+        if k == "kill" and out.startswith("ok"):
+            dead.add(int(w[1]))
+        zombies = sorted({i for t in sets1 for i in t if i in dead})
+        if zombies:
+            # (and nothing else can be judged by list semantics while a set lists an agent that no longer exists)
+            bad.append(f"zombie: after `{ev['line']}` a set still lists agent(s) {zombies}, which died: {sets1}")
+            continue
         for j, s in enumerate(sets1):
             if len(set(s)) != len(s):
                 bad.append(f"nodup: set {j} lists a member twice after `{ev['line']}`: {s}")
@@ -723,6 +762,13 @@ def oracle(sc, obs):
                 bad.append(f"raised: `{ev['line']}` raised {err}; this call never raises in list / ordered-set semantics")
             continue
         if k in ("rng", "agent"):
+            continue
+        if k == "kill":
+            a = int(w[1])
+            if sets1 != [[i for i in t if i != a] for t in sets0]:
+                bad.append(f"kill: after agent {a} died the sets are {sets1}, expected every set of {sets0} without it")
+            if [t for i, t in enumerate(attrs1) if i != a] != [t for i, t in enumerate(attrs0) if i != a]:
+                bad.append(f"kill: the death of agent {a} changed another agent's attributes")
             continue
         if k == "mk":
             ids = [int(x) for x in w[1:]]
